@@ -1,18 +1,55 @@
-"""Run every translator: regenerate coq/Generated/*.v from /repo's working tree."""
+"""Run every translator: regenerate coq/Generated/*.v from /repo's working tree.
+
+Each translator is fail-closed on its own: one that meets source text outside its grammar leaves its previous output in place
+and is recorded in ERRORS; only the properties whose theorems depend on that output (Require closure) are then reported as
+no longer shown (vlib/common.py Report.proofs) - the others do not rest on the file and are checked as usual."""
 import importlib
+import shutil
 import sys
+from pathlib import Path
+
+BASELINE = Path(__file__).resolve().parent / "baseline"     # outputs for the pinned tree (committed; tools/refresh_baseline.sh)
+GEN = Path(__file__).resolve().parent.parent / "coq" / "Generated"
 
 TRANSLATORS = ["gen_registry", "gen_proto", "gen_clientapi", "gen_constants", "gen_model", "gen_commands"]
+OUTPUTS = {
+    "gen_registry": ["Generated/GenRegistry.v"],
+    "gen_proto": ["Generated/GenProto.v", "Generated/GenDescriptors.v"],
+    "gen_clientapi": ["Generated/GenClientAPI.v"],
+    "gen_constants": ["Generated/GenConstants.v"],
+    "gen_model": ["Generated/GenModel.v"],
+    "gen_commands": ["Generated/GenCommands.v"],
+}
+ERRORS = {}     # translator -> "ExceptionType: message" of the last run_all()
 
 
-def run_all():
+def run_all(strict=False):
     changed = []
+    ERRORS.clear()
     for name in TRANSLATORS:
         mod = importlib.import_module(f"translate.{name}")
-        if mod.generate():
-            changed.append(name)
+        try:
+            if mod.generate():
+                changed.append(name)
+        except Exception as e:      # fail-closed: anything a translator cannot follow
+            if strict:
+                raise
+            ERRORS[name] = f"{type(e).__name__}: {e}"
+            # keep the project buildable for the properties that do not rest on this file: previous output, else the baseline
+            for f in OUTPUTS[name]:
+                dst = GEN / Path(f).name
+                if not dst.exists():
+                    GEN.mkdir(parents=True, exist_ok=True)
+                    shutil.copy(BASELINE / Path(f).name, dst)
     return changed
 
 
+def stale_outputs():
+    """generated files whose translator failed in the last run_all()"""
+    return {f: (t, ERRORS[t]) for t in ERRORS for f in OUTPUTS[t]}
+
+
 if __name__ == "__main__":
-    print("regenerated:", run_all())
+    print("regenerated:", run_all(strict="--strict" in sys.argv))
+    for t, e in ERRORS.items():
+        print(f"translator {t} could not follow the source: {e}", file=sys.stderr)
